@@ -107,8 +107,8 @@ def read_axes_case(ty, shape, ax0, ax1, isa, form='ctor', macros=()):
 # ----------------------------------------------------------------------------------------------
 def rhs_kind(kind, ty, K, kshape, bufs, req, rep, scal, decl):
     """right-hand side of K elements (shape kshape): returns (C++ text, k -> E)."""
-    if kind == 'lit':
-        return '7', lambda k: E.const(7, ty)
+    if kind == 'lit':      # literal of the element type (no int -> float conversion inside the library)
+        return {'int': '7', 'float': '7.0f', 'double': '7.0'}[ty.name], lambda k: E.const(7, ty)
     if kind == 'sym':
         sc = Scalar('s', ty); scal.append(sc)
         return 's', lambda k: E.arg(sc)
@@ -137,6 +137,9 @@ def fix_rkind(ty, op, rkind):
     """view /= floating scalar multiplies by a reciprocal that the compiler folds for a literal: the clause would have
     to accept either form; that combination is left to C02/C05 (scalar division) and a tensor right-hand side is used."""
     if ty.kind == 'float' and op == '/=' and rkind in ('lit', 'sym'): return 'tensor'
+    # int:  a -= b + b  is compiled to a + b * -2; a 32-bit multiplication by a negative constant against the adder form
+    # of the clause is a hard SAT instance (measured: 1 element, > 300 s) although nothing is wrong: use the plain tensor
+    if ty.kind == 'int' and op == '-=' and rkind == 'sum': return 'tensor'
     return rkind
 
 def write_it_case(ty, shape, ishape, op, rkind, isa, ity=INT, macros=()):
@@ -220,6 +223,12 @@ def mask_write_case(ty, shape, op, rkind, isa, macros=()):
     return Case(cid, 'C19', body, bufs, ens, mode, cfg, scalars=scal, requires=req, replay_values='\n'.join(rep) or None)
 
 # ----------------------------------------------------------------------------------------------
+# Sizes: CBMC handles the symbolic gather / scatter addresses quickly while (number of symbolic accesses) x (parent size)
+# stays small; 64-bit index types cost about 3x more than int (64-bit pointer arithmetic), therefore long long / size_t
+# index tensors are used with <= 5 indices and int index tensors for the long (2V+1) ones.
+# view2d forms (an index view assigned to a 2-D range view) currently fail on the unchanged tree (known finding: the
+# two-index evaluation of a rank-2 index view uses it[i+j]); the quick tier keeps two of them per ISA.
+# ----------------------------------------------------------------------------------------------
 def cases(tier, seed):
     rng = random.Random(seed)
     T = tier == 'thorough'
@@ -228,62 +237,65 @@ def cases(tier, seed):
     def ftype(): return rng.choice([FLT, DBL])
     def anyty(): return rng.choice([INT, INT, FLT, DBL])
     ITYS = [INT, I64, U64]
+    def ity_for(K, n): return rng.choice(ITYS) if (K <= 5 and n <= 12) else INT
     VEC = ('FASTOR_USE_VECTORISED_EXPR_ASSIGN',)
     for isa in isas(tier):
         V = vec_elems(isa, INT)
         # ---- reads through one flat index tensor, rank-1 parents -------------------------------------------------
         Ks = sorted(set([1, 2, 3, 4, 5, V - 1, V, V + 1, 2 * V + 1] if not T else list(range(1, 10)) + [V - 1, V, V + 1, 2 * V - 1, 2 * V, 2 * V + 1]))
-        Ks = [k for k in Ks if 1 <= k <= 33]
+        Ks = [k for k in Ks if 1 <= k <= (17 if not T else 33)]
         for K in Ks:
-            for N in ([rng.choice([3, 7, 10, 16])] if not T else [2, 7, 16]):
-                ty = anyty(); ity = rng.choice(ITYS)
-                out.append(read_it_case(ty, (N,), (K,), isa, ity=ity, form='ctor'))
-                out.append(read_it_case(rng.choice([INT, FLT]), (N,), (K,), isa, ity=rng.choice(ITYS), form=rng.choice(['assign', 'view1d', 'expr', 'add', 'sub'])))
-        for ity in ITYS:                      # every index type on one fixed shape, int and float parents
+            for N in ([rng.choice([3, 7, 10] + ([16] if K <= 5 else []))] if not T else [2, 7, 16 if K <= 9 else 10]):
+                out.append(read_it_case(anyty(), (N,), (K,), isa, ity=ity_for(K, N), form='ctor'))
+                out.append(read_it_case(rng.choice([INT, FLT]), (N,), (K,), isa, ity=ity_for(K, N), form=rng.choice(['assign', 'view1d', 'expr', 'add', 'sub'])))
+        for ity in ITYS:                      # every index type on one fixed shape, int / float / double parents
             for ty in (INT, FLT, DBL):
-                out.append(read_it_case(ty, (9,), (V + 1,), isa, ity=ity, form='ctor', const=(ty is DBL)))
+                out.append(read_it_case(ty, (9,), (5,), isa, ity=ity, form='ctor', const=(ty is DBL)))
         for K in ((3, V + 1) if not T else (2, 3, V, V + 1, 2 * V + 1)):
-            out.append(read_it_case(anyty(), (12,), (K,), isa, ity=rng.choice(ITYS), form='ctor', const=True))
+            if K <= 17: out.append(read_it_case(anyty(), (12,), (K,), isa, ity=ity_for(K, 12), form='ctor', const=True))
         # ---- reads through a flat index tensor of the parent's rank (rank 2, 3) ---------------------------------
-        for (shape, ishape) in ([((3, 4), (2, 2)), ((3, 5), (2, 3)), ((4, 4), (3, V + 1)), ((2, 3, 2), (2, 1, 3))] if not T else
-                                [((3, 4), (2, 2)), ((3, 5), (2, 3)), ((4, 4), (3, V + 1)), ((4, 4), (2, 2 * V + 1)), ((2, 8), (3, 3)), ((2, 3, 2), (2, 1, 3)), ((2, 2, 4), (1, 2, V))]):
+        nds = [((3, 4), (2, 2)), ((3, 5), (2, 3)), ((4, 4), (2, 9)), ((2, 3, 2), (2, 1, 3))]
+        if T: nds += [((2, 8), (3, 3)), ((2, 2, 4), (1, 2, 4)), ((3, 3), (3, 3))]
+        for (shape, ishape) in nds:
+            K = prod(ishape); n = prod(shape)
             for form in ('ctor', 'assign', 'expr'):
-                out.append(read_it_case(anyty() if form != 'expr' else rng.choice([INT, FLT]), shape, ishape, isa, ity=rng.choice(ITYS), form=form))
-            if len(shape) == 2:
-                out.append(read_it_case(INT, shape, ishape, isa, form='view2d'))
+                out.append(read_it_case(anyty() if form != 'expr' else rng.choice([INT, FLT]), shape, ishape, isa, ity=ity_for(K, n), form=form))
+        for (shape, ishape) in (nds[:3] if T else nds[:1]):
+            out.append(read_it_case(INT, shape, ishape, isa, form='view2d'))
         # ---- reads with one index tensor per axis, mixed with fseq / fixed integer / run-time integer ------------
         for shape in ([(3, 4), (4, 4)] if not T else [(2, 3), (3, 4), (4, 4), (3, 5), (2, 8)]):
             M, N = shape
-            for (k0, k1) in ([(2, 2), (3, V + 1)] if not T else [(1, 1), (2, 2), (2, 3), (3, V + 1), (M, N), (2, 2 * V + 1)]):
-                i0, i1 = rng.choice(ITYS), rng.choice(ITYS)
-                out.append(read_axes_case(anyty(), shape, ('it', k0, i0), ('it', k1, i1), isa, form=rng.choice(['ctor', 'assign'])))
-            out.append(read_axes_case(INT, shape, ('it', 2, INT), ('it', 3, INT), isa, form='view2d'))
+            for (k0, k1) in ([(2, 2), (2, min(V + 1, 9))] if not T else [(1, 1), (2, 2), (2, 3), (3, 5), (M, N), (2, 9)]):
+                kk = k0 * k1
+                out.append(read_axes_case(anyty(), shape, ('it', k0, ity_for(kk, M * N)), ('it', k1, ity_for(kk, M * N)), isa, form=rng.choice(['ctor', 'assign'])))
+            if T or shape == (3, 4): out.append(read_axes_case(INT, shape, ('it', 2, INT), ('it', 3, INT), isa, form='view2d'))
             colr = [r for r in all_ranges(N, 2, neg=False) if rsize(*r) >= 2]
             rowr = [r for r in all_ranges(M, 2, neg=False) if rsize(*r) >= 2]
             for _ in range(1 if not T else 3):
                 out.append(read_axes_case(anyty(), shape, ('it', rng.choice([2, 3]), rng.choice(ITYS)), ('fseq', rng.choice(colr)), isa))
-                out.append(read_axes_case(anyty(), shape, ('fseq', rng.choice(rowr)), ('it', rng.choice([2, 3, V + 1]), rng.choice(ITYS)), isa))
+                out.append(read_axes_case(anyty(), shape, ('fseq', rng.choice(rowr)), ('it', rng.choice([2, 3]), rng.choice(ITYS)), isa))
             out.append(read_axes_case(anyty(), shape, ('it', 3, rng.choice(ITYS)), ('int', rng.randrange(N)), isa))
-            out.append(read_axes_case(anyty(), shape, ('int', rng.randrange(M)), ('it', V + 1, rng.choice(ITYS)), isa))
+            out.append(read_axes_case(anyty(), shape, ('int', rng.randrange(M)), ('it', 5, rng.choice(ITYS)), isa))
             out.append(read_axes_case(anyty(), shape, ('it', 2, INT), ('sym',), isa))
             out.append(read_axes_case(anyty(), shape, ('sym',), ('it', 3, INT), isa))
         # ---- writes through one flat index tensor ---------------------------------------------------------------------
-        for (N, K) in ([(5, 2), (7, 3), (10, 4), (12, 5)] if not T else [(3, 1), (4, 2), (5, 2), (5, 5), (7, 3), (9, 4), (10, 4), (12, 5), (16, 4), (16, 6)]):
+        for (N, K) in ([(5, 2), (7, 3), (10, 4)] if not T else [(3, 1), (4, 2), (5, 2), (5, 5), (7, 3), (9, 4), (10, 4), (12, 4), (16, 3)]):
             for op in INT_OPS:
-                out.append(write_it_case(INT, (N,), (K,), op, rng.choice(['tensor', 'tensor', 'sum']), isa, ity=rng.choice(ITYS)))
-            out.append(write_it_case(INT, (N,), (K,), rng.choice(INT_OPS), rng.choice(['lit', 'sym']), isa, ity=rng.choice(ITYS)))
-            out.append(write_it_case(INT, (N,), (K,), rng.choice(INT_OPS), rng.choice(['itview', 'seqview']), isa))
+                out.append(write_it_case(INT, (N,), (K,), op, rng.choice(['tensor', 'tensor', 'sum']), isa, ity=ity_for(K, N)))
+            out.append(write_it_case(INT, (N,), (K,), rng.choice(INT_OPS), rng.choice(['lit', 'sym']), isa, ity=ity_for(K, N)))
+            if N <= 7: out.append(write_it_case(INT, (N,), (K,), rng.choice(INT_OPS), rng.choice(['itview', 'seqview']), isa))
             ty = ftype()
             for op in (ALL_OPS if T else sample(rng, ALL_OPS, 2)):
-                out.append(write_it_case(ty, (N,), (K,), op, rng.choice(['tensor', 'lit', 'neg', 'sum']), isa, ity=rng.choice(ITYS)))
+                out.append(write_it_case(ty, (N,), (K,), op, rng.choice(['tensor', 'lit', 'neg', 'sum']), isa, ity=ity_for(K, N)))
             out.append(write_it_case(INT, (N,), (K,), rng.choice(INT_OPS), 'tensor', isa, macros=VEC))
             if T: out.append(write_it_case(ftype(), (N,), (K,), rng.choice(ALL_OPS), rng.choice(['tensor', 'lit']), isa, macros=VEC))
-        out.append(write_it_case(FLT, (16,), (V + 1,) if V + 1 <= 9 else (9,), '=', 'tensor', isa, macros=VEC))
-        for (shape, ishape) in ([((3, 4), (2, 2)), ((2, 3, 2), (1, 2, 2))] if not T else [((3, 4), (2, 2)), ((4, 4), (2, 3)), ((3, 5), (2, 2)), ((2, 3, 2), (1, 2, 2))]):
+        out.append(write_it_case(INT, (12,), (5,), '=', 'tensor', isa))
+        out.append(write_it_case(FLT, (12,), (5,), '=', 'tensor', isa, macros=VEC))       # one full SSE vector + remainder in the vectorised scatter
+        if isa in ('avx2', 'avx') or T: out.append(write_it_case(FLT, (16,), (9,), '=', 'tensor', isa, macros=VEC))
+        for (shape, ishape) in ([((3, 4), (2, 2)), ((2, 3, 2), (1, 2, 2))] if not T else [((3, 4), (2, 2)), ((4, 4), (2, 2)), ((3, 5), (2, 2)), ((2, 3, 2), (1, 2, 2))]):
             for op in INT_OPS:
                 out.append(write_it_case(INT, shape, ishape, op, rng.choice(['tensor', 'lit', 'sum']), isa, ity=rng.choice(ITYS)))
-            ty = ftype()
-            out.append(write_it_case(ty, shape, ishape, rng.choice(ALL_OPS), rng.choice(['tensor', 'lit']), isa))
+            out.append(write_it_case(ftype(), shape, ishape, rng.choice(ALL_OPS), rng.choice(['tensor', 'lit']), isa))
             out.append(write_it_case(INT, shape, ishape, rng.choice(INT_OPS), 'tensor', isa, macros=VEC))
         # ---- writes with one index tensor per axis / mixed ------------------------------------------------------------
         for shape in ([(3, 4)] if not T else [(2, 3), (3, 4), (4, 4)]):
